@@ -771,6 +771,13 @@ fn load_operands<G: GroupApi>(m: &mut Mach<G>, rng: &mut Rng) -> bool {
     }
     ok = ok && m.bin("add", 8, 4, 5, 0) && m.bin("add", 9, 1, 6, 1) && m.bin("sub", 10, 4, 7, 2);
     ok = ok && m.un("neg", 11, 4, 1);
+    // other representatives of the same elements (quotient groups): D = P - decode(encode(P)) is a
+    // representative of the neutral that no decoder produces; G + D another representative of G
+    if ok && rng.chance(1, 2) {
+        let enc = m.regs[4].encode();
+        ok = m.decode(2, &enc) && m.bin("sub", 3, 4, 2, 0) && m.bin("add", 2, 1, 3, 0);
+        if ok { m.isneutral(3); m.equals(3, 0); m.equals(0, 3); m.equals(2, 1); m.isneutral(2); m.encode(3); }
+    }
     ok
 }
 
@@ -905,6 +912,8 @@ fn run_vh_pow2<G: GroupApi>(tr: &mut Trace, rng: &mut Rng, plan: &Plan) {
     let inv = |x: &BigUint| x.modpow(&(&n - 2u32), &n);
     let (js, ms): (Vec<usize>, Vec<u32>) = if plan.scalars > 100 {
         (vec![63, 64, 65, 126, 127, 128, 129], vec![1, 3, 5, 7, 255]) } else { (vec![127, 128], vec![1, 3]) };
+    let hw = (n.bits() as usize + 1) / 2;
+    let js: Vec<usize> = if hw > 130 { let mut t = js.clone(); t.extend_from_slice(&[hw - 1, hw, hw + 1]); t } else { js };
     let mut m = Mach::<G>::new(tr);
     let mut ok = m.cst(0, "NEUTRAL") && m.cst(1, "BASE") && m.mulgen(2, &rng.bytes(G::SC_LEN), 0);
     for j in js { for mm in ms.iter() { for form in 0..2 { for sign in 0..2 {
@@ -921,6 +930,80 @@ fn run_vh_pow2<G: GroupApi>(tr: &mut Trace, rng: &mut Rng, plan: &Plan) {
             m.verify_helper(2, 0, &s, &k);
         }
     } } } }
+}
+
+/// Gauss reduction of the lattice {(a, b) : a = k*b mod n}: a shortest vector (input selection only).
+fn shortest_vector(n: &BigUint, k: &BigUint) -> (BigInt, BigInt) {
+    let nn = |v: &(BigInt, BigInt)| &v.0 * &v.0 + &v.1 * &v.1;
+    let mut u = (BigInt::from_biguint(Sign::Plus, n.clone()), BigInt::from(0));
+    let mut v = (BigInt::from_biguint(Sign::Plus, k.clone()), BigInt::from(1));
+    if nn(&u) < nn(&v) { std::mem::swap(&mut u, &mut v); }
+    loop {
+        // q = round(<u,v> / <v,v>)
+        let dot = &u.0 * &v.0 + &u.1 * &v.1;
+        let nv = nn(&v);
+        if nv == BigInt::from(0) { return u; }
+        let two = BigInt::from(2);
+        let (num, den) = (&dot * &two + &nv, &nv * &two);
+        let mut q = &num / &den;
+        if (&num % &den) < BigInt::from(0) { q -= 1; }
+        let w = (&u.0 - &q * &v.0, &u.1 - &q * &v.1);
+        if nn(&w) >= nn(&v) { return v; }
+        u = v; v = w;
+    }
+}
+
+/// verify_helper on challenges k = c0/c1 (and c1/c0) whose large coefficient sits at the very top of the
+/// range a shortest lattice vector can reach (bit length L of sqrt(2n/sqrt(3))): last wNAF digit / carry
+/// out of the last window, sign and truncation boundaries.  Candidates are kept only when (c0, c1) really
+/// is the shortest vector of the lattice of k (Gauss reduction in the harness; input selection only).
+fn run_vh_top<G: GroupApi>(tr: &mut Trace, rng: &mut Rng, plan: &Plan) {
+    if G::verify_helper(G::neutral(), G::neutral(), &[0u8; 1], &[0u8; 1]).is_none() { return; }
+    let n = G::order();
+    let one = BigUint::from(1u32);
+    let inv = |x: &BigUint| x.modpow(&(&n - 2u32), &n);
+    // bit length of the largest possible coefficient: floor(sqrt(1.1548 n))
+    let lmax = (((&n * 11548u32) / 10000u32).sqrt()).bits() as usize;
+    let full = plan.scalars > 100;
+    let ls: Vec<usize> = if full { vec![lmax - 2, lmax - 1, lmax] } else { vec![lmax - 1, lmax] };
+    let mut m = Mach::<G>::new(tr);
+    let mut ok = m.cst(0, "NEUTRAL") && m.cst(1, "BASE") && m.mulgen(2, &rng.bytes(G::SC_LEN), 0);
+    let mut cnt = 0usize;
+    for l in ls {
+        for pi in 0..6 {
+            // search (c0, c1) of the wanted shape that is the shortest vector of its own lattice
+            let mut found: Option<(BigUint, BigUint, BigUint)> = None;
+            for _try in 0..400 {
+                let c0 = match pi {
+                    0 | 1 => (&one << (l - 1)) + (&one << (l - 5)) + (BigUint::from_bytes_le(&rng.bytes(l / 8 + 1)) % (&one << (l - 10))), // top window = 17
+                    2 => (&one << (l - 1)) + (&one << (l - 5)) - 1u32 - BigUint::from(rng.u64() >> 20),
+                    3 => (&one << (l - 1)) + (BigUint::from_bytes_le(&rng.bytes(l / 8 + 1)) % (&one << (l - 4))),
+                    4 => (&one << (l - 1)) + BigUint::from(rng.u64() >> 8),
+                    _ => (&one << l) - 1u32 - (BigUint::from_bytes_le(&rng.bytes(l / 8 + 1)) % (&one << (l - 3))),
+                };
+                let c1bits = *rng.pick(&[2usize, 16, 64, l / 2, l - 6, l - 4]);
+                let c1 = (BigUint::from_bytes_le(&rng.bytes(c1bits / 8 + 1)) % (&one << c1bits)) | one.clone();
+                if c0 >= n || c1 >= n { continue; }
+                let k = ((&c0 % &n) * inv(&c1)) % &n;
+                let (sa, sb) = shortest_vector(&n, &k);
+                if sa.magnitude() == &c0 && sb.magnitude() == &c1 { found = Some((c0, c1, k)); break; }
+            }
+            let (_c0, _c1, k0) = match found { Some(x) => x, None => continue };
+            for form in 0..2 {
+                if !full && pi >= 3 && form == 1 { continue; }
+                if !ok { m = Mach::<G>::new(tr); ok = m.cst(0, "NEUTRAL") && m.cst(1, "BASE") && m.mulgen(2, &rng.bytes(G::SC_LEN), 0); if !ok { return; } }
+                let kk = if form == 0 { k0.clone() } else { inv(&k0) };
+                cnt += 1;
+                let k = to_le(&(if cnt % 2 == 0 { kk } else { (&n - kk) % &n }), G::SC_LEN);
+                let s = rng.bytes(G::SC_LEN);
+                ok = m.mulgen(8, &s, 0) && m.mul(9, 2, &k, 0) && m.bin("sub", 10, 8, 9, 0);
+                if ok {
+                    m.verify_helper(2, 10, &s, &k);
+                    if cnt % 3 == 0 { m.verify_helper(2, 8, &s, &k); }     // R = s*G: false unless k*Q = 0
+                }
+            }
+        }
+    }
 }
 
 fn run_mamv<G: GroupApi>(tr: &mut Trace, rng: &mut Rng, plan: &Plan) {
@@ -953,14 +1036,16 @@ fn run_mamv<G: GroupApi>(tr: &mut Trace, rng: &mut Rng, plan: &Plan) {
             let k = if rng.chance(1, 3) {
                 // exact powers of two over / under small odd integers: reconstructions with a
                 // coordinate of magnitude exactly 2^127 / 2^128 (sign and truncation boundaries)
-                let j = *rng.pick(&[63usize, 64, 126, 127, 128, 129]);
+                let hw = (n.bits() as usize + 1) / 2;
+                let j = *rng.pick(&[63usize, 64, 126, 127, 128, 129, hw - 1, hw, hw + 1]);
                 let t = (BigUint::from(1u32) << j) % &n;
                 let m = BigUint::from(*rng.pick(&[1u32, 3, 5, 7, 9, 255, 65537]));
                 let inv = |x: &BigUint| x.modpow(&(&n - 2u32), &n);
                 let kk = if rng.chance(1, 2) { (&t * inv(&m)) % &n } else { (&m * inv(&t)) % &n };
                 to_le(&(if rng.chance(1, 2) { kk } else { (&n - kk) % &n }), G::SC_LEN)
             } else if rng.chance(1, 2) {
-                let cls = [1usize, 63, 64, 65, 126, 127, 128, 129];
+                let hw = (n.bits() as usize + 1) / 2;
+                let cls = [1usize, 63, 64, 65, 126, 127, 128, 129, hw - 1, hw, hw + 1];
                 let mk = |rng: &mut Rng, bits: usize| -> BigUint {
                     let x = BigUint::from_bytes_le(&rng.bytes(bits / 8 + 1)) % (BigUint::from(1u32) << bits);
                     x | (BigUint::from(1u32) << (bits - 1))
@@ -1247,6 +1332,7 @@ pub fn run_type<G: GroupApi>(tr: &mut Trace, rng: &mut Rng, what: &str, plan: &P
             "coords" => run_coords::<G>(tr, rng, plan),
             "xseq" => run_xseq::<G>(tr, rng, plan),
             "endo" => run_endo::<G>(tr, rng, plan),
+            "vhtop" => run_vh_top::<G>(tr, rng, plan),
             _ => panic!("unknown group sub-domain {}", w),
         }
     }
